@@ -96,3 +96,58 @@ theorem cleanEmpty_congr (cfg cfg' : Config) (h1 : cfg.inverse = cfg'.inverse) (
 
 end Shexer
 end Shexer
+
+namespace Shexer
+namespace Shexer
+
+/-- `sh'` is `sh` with some statements removed (same header, surviving statements unchanged) -/
+def SubShape (sh' sh : Shape) : Prop :=
+  sh'.name = sh.name ∧ sh'.classUri = sh.classUri ∧ sh'.nInstances = sh.nInstances ∧ ∀ s ∈ sh'.stmts, s ∈ sh.stmts
+
+theorem SubShape.refl (sh : Shape) : SubShape sh sh := ⟨rfl, rfl, rfl, fun _ h => h⟩
+
+theorem SubShape.trans {a b c : Shape} (h1 : SubShape a b) (h2 : SubShape b c) : SubShape a c :=
+  ⟨h1.1.trans h2.1, h1.2.1.trans h2.2.1, h1.2.2.1.trans h2.2.2.1, fun s hs => h2.2.2.2 s (h1.2.2.2 s hs)⟩
+
+theorem dropRefs_sub (cfg : Config) (gone : List String) (sh : Shape) : SubShape (dropRefs cfg gone sh) sh := by
+  unfold dropRefs
+  refine ⟨?_, ?_, ?_, ?_⟩
+  · split <;> rfl
+  · split <;> rfl
+  · split <;> rfl
+  · intro s hs
+    split at hs
+    · simp only [List.mem_append, List.mem_filter] at hs
+      rcases hs with h | h
+      · exact h.1.1
+      · exact h.1.1
+    · simp only [List.mem_append, List.mem_filter] at hs
+      rcases hs with h | h
+      · exact h.1
+      · exact h.1.1
+
+/-- removal of empty shapes only ever deletes shapes and statements -/
+theorem cleanEmptyAux_sub (cfg : Config) (fuel : Nat) (shapes : List Shape) :
+    ∀ sh' ∈ cleanEmptyAux cfg fuel shapes, ∃ sh ∈ shapes, SubShape sh' sh := by
+  induction fuel generalizing shapes with
+  | zero => intro sh' h; exact ⟨sh', h, SubShape.refl _⟩
+  | succ fuel ih =>
+    intro sh' h
+    unfold cleanEmptyAux at h
+    simp only at h
+    split at h
+    · exact ⟨sh', h, SubShape.refl _⟩
+    · obtain ⟨mid, hmid, hsub⟩ := ih _ sh' h
+      simp only [List.mem_map, List.mem_filter] at hmid
+      obtain ⟨orig, ⟨horig, _⟩, rfl⟩ := hmid
+      exact ⟨orig, horig, hsub.trans (dropRefs_sub cfg _ orig)⟩
+
+theorem cleanEmpty_sub (cfg : Config) (shapes : List Shape) :
+    ∀ sh' ∈ cleanEmpty cfg shapes, ∃ sh ∈ shapes, SubShape sh' sh := by
+  unfold cleanEmpty
+  split
+  · exact cleanEmptyAux_sub cfg _ shapes
+  · intro sh' h; exact ⟨sh', h, SubShape.refl _⟩
+
+end Shexer
+end Shexer
